@@ -9,23 +9,25 @@ AllKinds == {"eph.silent", "eph.missing", "eph.selfkey",
              "dup", "spoof", "session"}
 AllFixes == {"F1", "F2", "F3", "F4", "F5", "F6", "F7"}
 NoFixes == {}
-NoF1 == AllFixes \ {"F1"}
-NoF2 == AllFixes \ {"F2"}
-NoF3 == AllFixes \ {"F3"}
-NoF4 == AllFixes \ {"F4"}
-NoF5 == AllFixes \ {"F5"}
-NoF6 == AllFixes \ {"F6"}
-NoF7 == AllFixes \ {"F7"}
+OnlyFixed == {AllFixes}
+OnlyAsIs == {NoFixes}
+Both == {NoFixes, AllFixes}
+Without(f) == {AllFixes \ {f}}
 
-\* directed deviation classes (one per defect found in the pinned code)
-KD1 == {"pts.partial"}
-KD2 == {"acc.self"}
-KD3a == {"rev.badid", "rev.self"}
-KD3b == {"acc.silent", "rev.member"}
-KD4 == {"sh.bad", "sh.absent"}
-KD5 == {"sh.bad", "acc.member"}
-KD6 == {"dup", "rev.member"}
-KD7 == {"pts.partial", "acc.member"}
+Class(name, kinds, k, ord) == [name |-> name, kinds |-> kinds, k |-> k, ord |-> ord]
+\* exhaustive checking
+All(k, ord) == {Class("all", AllKinds, k, ord)}
+\* directed classes: every behaviour of a small class of deviations, one class
+\* per defect found in the pinned code (and every single deviation for n = 3)
+Single3 == Class("single", AllKinds, 1, "asc")
+D6 == Class("dupreveal", {"dup", "rev.member"}, 2, "asc")
+D3b == Class("reveal-unexpected", {"acc.silent", "rev.member"}, 2, "rev1")
+D4 == Class("shares-absent", {"sh.bad", "sh.absent"}, 2, "rev1")
+D5 == Class("accuser-dropped", {"sh.bad", "acc.member"}, 3, "rev1")
+D7 == Class("partial-points", {"pts.partial", "acc.member"}, 2, "rev1")
+Directed3 == {Single3, D6}
+Directed5 == {D3b, D4, D5, D7}
+C02AsIs == {D3b}
 
 \* corrupt sets
 Corrupt3 == {{3}}
@@ -33,7 +35,12 @@ Corrupt3any == {{}, {1}, {2}, {3}}
 Corrupt4 == {{4}, {2}}
 Corrupt5 == {{4, 5}}
 Corrupt5b == {{4, 5}, {1, 3}, {5}}
-NoPlan == {<<K, K, K, K, K, K>>}
-AllPlans == {p \in [1..6 -> 0..K] : p[1] + p[2] + p[3] + p[4] + p[5] + p[6] <= K + 2}
+NoPlan == {<<9, 9, 9, 9, 9, 9>>}
+AllPlans == {p \in [1..6 -> 0..2] : p[1] + p[2] + p[3] + p[4] + p[5] + p[6] <= 5}
+All2full == All(2, "full")
+All3full == All(3, "full")
+All2corrupt == All(2, "corrupt")
+All1asc == All(1, "asc")
+All4full == All(4, "full")
 UpToT == {S \in SUBSET Members : Cardinality(S) <= T}
 =============================================================================
